@@ -13,6 +13,7 @@ from vmon.oracle import c19_model as md
 from vmon.gen.c19_ufodrv import *  # noqa: F401,F403  (drv_ufo, drv_ufokern2, drv_layers, drv_infoinvalid, drv_corpus_ufo)
 from vmon.gen.c19_ufodrv import Bag, glyph_object
 from vmon.gen.c19_sessions import drv_sessions  # noqa: F401
+from vmon.gen.c19_histories import drv_dshist, drv_ufodown  # noqa: F401
 
 
 # ---------------------------------------------------------------------------
